@@ -278,7 +278,7 @@ func (fr *Frame) asn1Marshal(b *ssa.BasicBlock, st *State, args []Val, resT type
 	_ = tag
 	h := heapElem(types.NewInterfaceType(nil, nil).Complete())
 	hname := ""
-	for name := range fc.varSort {
+	for _, name := range sortedKeys(fc.varSort) {
 		if strings.HasPrefix(name, "E:") && (strings.HasSuffix(name, "any") || strings.HasSuffix(name, "interface{}")) {
 			hname = name
 		}
@@ -694,7 +694,8 @@ func (fr *Frame) ifaceTarget(v Val) (string, types.Type) {
 // havocAnyFields: havoc row r in every field heap known so far (destination of unknown struct type)
 func (fr *Frame) havocAnyFields(st *State, r string) {
 	fc := fr.fc
-	for name, sort := range fc.varSort {
+	for _, name := range sortedKeys(fc.varSort) {
+		sort := fc.varSort[name]
 		if strings.HasPrefix(name, "F:") {
 			inner := strings.TrimSuffix(strings.TrimPrefix(sort, "(Array Int "), ")")
 			hv := fc.freshConst("hv", inner)
